@@ -502,7 +502,7 @@ func genOverlay(p *packages.Package, con *Contracts, L *Loaded) (string, []strin
 					}
 				}
 				w("\treturn\n}\n")
-			case "invariant", "decreases":
+			case "invariant", "decreases", "fires":
 				if cl.Loop < 1 || cl.Loop > len(loops) {
 					stale = append(stale, fmt.Sprintf("%s:%d: function %s has %d loops, clause names loop %d", cl.File, cl.Line, name, len(loops), cl.Loop))
 					staleFuncs[cl.FuncName] = true
